@@ -15,8 +15,11 @@ const (
 	MinExp = -100000
 )
 
-var precisions = []int64{1, 2, 3, 4, 5, 6, 7, 9, 12, 16, 19, 20, 34, 38, 39, 40, 77, 100}
-var precWeights = []int{10, 12, 14, 10, 10, 6, 8, 8, 4, 6, 4, 4, 3, 2, 2, 2, 1, 1}
+// The precisions beyond 100 straddle the sizes at which implementations
+// switch representation or algorithm: 128 digits (the power-of-ten lookup
+// table), 256/512, and a few hundred digits in between.
+var precisions = []int64{1, 2, 3, 4, 5, 6, 7, 9, 12, 16, 19, 20, 34, 38, 39, 40, 77, 100, 127, 128, 129, 130, 131, 150, 200, 257, 300, 513}
+var precWeights = []int{10, 12, 14, 10, 10, 6, 8, 8, 4, 6, 4, 4, 3, 2, 2, 2, 1, 1, 1, 1, 1, 1, 1, 1, 1, 1, 1, 1}
 
 // Precision draws a precision (>= 1), small values favoured.
 func Precision(r *rng.R) int64 { return precisions[r.Pick(precWeights...)] }
@@ -370,7 +373,20 @@ func Pair(r *rng.R, c dec.Ctx, op string) (dec.D, dec.D) {
 		}
 		x = WithAdj(xn, xc, t)
 		y = WithAdj(yn, yc, clampAdj(t-gap))
-		if (op == "add" || op == "sub") && r.Chance(1, 10) {
+		if (op == "add" || op == "sub") && r.Chance(1, 40) {
+			// exponents more than 100000 apart (the distance at which the internal
+			// alignment gives up: an exponent-limit error is accepted there, a
+			// delivered result must still be the correctly rounded one)
+			hc := xc
+			if r.Chance(1, 2) {
+				hc = new(big.Int).Set(dec.Pow10(int64(r.Intn(int(c.P) + 1))))
+			}
+			x = WithAdj(xn, hc, r.Range(20000, 99000))
+			y = WithAdj(yn, yc, -r.Range(20000, 99000))
+			if r.Bool() {
+				x, y = y, x
+			}
+		} else if (op == "add" || op == "sub") && r.Chance(1, 10) {
 			// a power of ten and an operand far below it, at the place where the
 			// rounding of the difference is decided: if the signs make it a
 			// subtraction the leading digit cancels and the result gains a digit
